@@ -35,11 +35,21 @@ func (e *TokErr) Error() string { return fmt.Sprintf("builderr(%s#%d)", e.K, e.N
 
 // FaultErr is an injected backend failure.
 type FaultErr struct {
-	Op string
-	N  int
+	Op      string
+	N       int
+	Expired bool // matches cache.ErrExpired (but carries no item)
 }
 
-func (e *FaultErr) Error() string { return fmt.Sprintf("fault(%s#%d)", e.Op, e.N) }
+func (e *FaultErr) Error() string {
+	if e.Expired {
+		return fmt.Sprintf("fault(%s#%d: expired, no item)", e.Op, e.N)
+	}
+
+	return fmt.Sprintf("fault(%s#%d)", e.Op, e.N)
+}
+
+// Is makes the "expired without an item" flavour match cache.ErrExpired.
+func (e *FaultErr) Is(target error) bool { return e.Expired && target == cache.ErrExpired }
 
 // GOp is one Get issued by a harness thread.
 type GOp struct {
@@ -239,8 +249,19 @@ func (h *fh) fault(op string) error {
 	n := h.nfault
 	h.nfault++
 
-	if vsched.Choose(2, 0xf0) == 1 {
+	// environment answers: 0 the call goes through; 1 it fails with an error of unknown kind (a transport fault);
+	// 2 (reads only) it fails with an error that matches cache.ErrExpired but carries no item - ErrExpired "may
+	// implement ErrWithExpiredItem", a backend need not provide the stale value
+	answers := 2
+	if op == "read" {
+		answers = 3
+	}
+
+	switch vsched.Choose(answers, 0xf0) {
+	case 1:
 		return &FaultErr{Op: op, N: n}
+	case 2:
+		return &FaultErr{Op: op, N: n, Expired: true}
 	}
 
 	return nil
